@@ -155,7 +155,7 @@ func runHistory(c *HistCase) (histStats, error) {
 	for si, s := range c.Steps {
 		switch s.Op {
 		case "set":
-			used.E.SetVariable(s.Name, eng.ToObject(s.V))
+			used.Give(s.Name, eng.ToObject(s.V))
 		case "addfn":
 			// the host registers a function (again, or for the first time under
 			// the name of one of the script's own): from the next run on it is
